@@ -243,6 +243,53 @@ def history_cases(ctx):
     return n
 
 
+def array_and_long_cases(ctx):
+    """Buffer-protocol containers with items wider than a byte, and long sysex payloads with one
+    non-integer item (a bulk range check would miss it)."""
+    import array
+    n = 0
+    for code, seq in (('b', [-112, 64, 64]), ('b', [-1]), ('H', [448]), ('H', [0x90, 300, 1]), ('h', [0x01F0, -2302]),
+                      ('i', [0x90, 64, 64, 1]), ('i', [0x190, 64, 64]), ('q', [0xF0, 1, 2]), ('H', [0x90, 64]),
+                      ('i', [0x90, 64, 64]), ('H', [0xF0, 1, 0xF7]), ('q', [0xF8]), ('B', [0x90, 0x80, 1])):
+        arr = array.array(code, seq)
+        case = {'kind': 'array', 'code': code, 'seq': seq}
+        try:
+            m = Message.from_bytes(arr)
+            ok = midi1.accept(seq) and m.bytes() == list(seq)
+            ctx.check('accepted => wellformed', ok, 'array-accepted-malformed', case, repr(m))
+        except ValueError:
+            ctx.check('rejected => malformed', not midi1.accept(seq), 'array-rejected-wellformed', case, None)
+        except TypeError:
+            ctx.check('exception class', False, 'array-TypeError-on-ints', case, None)
+        except Exception as exc:
+            ctx.check('exception class', False, f'array-{type(exc).__name__}', case, f'{type(exc).__name__}: {exc}')
+        n += 1
+    for ln in (1023, 1024, 1025, 2000, 70000):
+        for bad in (1.5, 64.0, fractions.Fraction(1, 2), decimal.Decimal('3.7'), float('nan'), None, 'a'):
+            for pos in (1, ln // 2, ln):
+                seq = [0xF0] + [0] + [5] * (ln - 2) + [127] + [0xF7]
+                seq[pos] = bad
+                for cont in (list, tuple):
+                    case = {'kind': 'long-sysex', 'len': ln, 'bad': repr(bad), 'pos': pos}
+                    try:
+                        m = Message.from_bytes(cont(seq))
+                        ctx.check('nonint data rejected', False, 'nonint-accepted:long-sysex', case, repr(m)[:80])
+                    except (ValueError, TypeError):
+                        ctx.count('nonint data rejected')
+                    except Exception as exc:
+                        ctx.check('exception class', False, f'long-sysex-{type(exc).__name__}', case, str(exc)[:100])
+                    n += 1
+        for badint in (128, 255, 256, -1):
+            seq = [0xF0] + [0] * ln + [0xF7]
+            seq[ln // 2] = badint
+            check_seq(ctx, seq, list)
+            n += 1
+        check_seq(ctx, [0xF0] + [1] * ln + [0xF7], tuple)
+        check_seq(ctx, [0xF0] + [1] * ln, list)
+        n += 2
+    return n
+
+
 HEX_BAD = ['9', '90 4', '90 40 4', 'G0 00 00', '90,40,40', '0x90 0x40 0x40',
            '90-40-40', '90 40 40 ZZ', '9040 4', ' ', '', 'F0', 'F0 01', 'F7',
            '90 40', '90 40 40 40', '80 80 80', 'F4', 'FF FF', '90 40 80']
@@ -334,6 +381,11 @@ def run(ctx):
         ctx.nontrivial(None, h)
         ctx.extra('cases_repeated_after_perturbations', h)
         n += h
+    if ctx.shard == 4 % ctx.nshards:
+        h = array_and_long_cases(ctx)
+        ctx.nontrivial(None, h)
+        ctx.extra('array_and_long_sysex_cases', h)
+        n += h
     if ctx.shard == 2 % ctx.nshards:
         h = hex_cases(ctx)
         ctx.nontrivial(None, h)
@@ -359,6 +411,8 @@ def replay(ctx, case):
         cont = {'list': list, 'tuple': tuple, 'bytes': bytes,
                 'bytearray': bytearray}[case['container']]
         check_seq(ctx, [_unrepr(x) for x in case['seq']], cont)
+    elif case['kind'] in ('array', 'long-sysex'):
+        array_and_long_cases(ctx)
     elif case['kind'] == 'history':
         history_cases(ctx)
     elif case['kind'] == 'hex':
